@@ -249,7 +249,10 @@ def _panic(m, c):
             msg = a.s
             break
         if isinstance(a, Opaque) and a.tag == "fmtargs":
-            msg = a.payload
+            try:
+                msg = render_fmt(m, a)
+            except Exception:
+                msg = "".join(a.payload[0]) if isinstance(a.payload, tuple) else str(a.payload)
             break
     raise RustPanic("panic: " + msg + " [" + c.cal.method + "]")
 
@@ -618,14 +621,32 @@ def _cmp_vals(m, a, b):
     return a, b
 
 
+def _peel_refs(m, c, trait, method, ret):
+    """std blanket impls `impl Trait<&B> for &A where A: Trait<B>`: forward to the inner types"""
+    st = c.self_ty
+    rhs = subst(c.cal.trait_args[0], c.env) if c.cal.trait_args else st
+    if st is not None and rhs is not None and st.k == "ref" and rhs.k == "ref" and isinstance(c.args[0], Ref) and isinstance(c.args[1], Ref):
+        ia, ib = m.deref(c.args[0]), m.deref(c.args[1])
+        if isinstance(ia, Ref) and isinstance(ib, Ref):
+            return m.call_text(f"<{show(st.args[0])} as {trait}<{show(rhs.args[0])}>>::{method}", [ia, ib],
+                               [Ty("ref", None, (st.args[0],), False), Ty("ref", None, (rhs.args[0],), False)], ret, c.env)
+    return NotImplemented
+
+
 @model("PartialEq::eq")
 def _peq(m, c):
+    r = _peel_refs(m, c, "PartialEq", "eq", parse_type("bool"))
+    if r is not NotImplemented:
+        return r
     return elem_eq(m, c.args[0], c.args[1])
 
 
 @model("PartialEq::ne")
 def _pne(m, c):
     # default method: !eq  (in-crate eq when there is one)
+    r = _peel_refs(m, c, "PartialEq", "ne", parse_type("bool"))
+    if r is not NotImplemented:
+        return r
     a, b = c.args
     st = c.self_ty
     try:
@@ -658,6 +679,9 @@ def _prim_partial_cmp(m, a, b):
 
 @model("PartialOrd::partial_cmp")
 def _partial_cmp(m, c):
+    r = _peel_refs(m, c, "PartialOrd", "partial_cmp", parse_type("Option<Ordering>"))
+    if r is not NotImplemented:
+        return r
     return some(_prim_partial_cmp(m, c.args[0], c.args[1]))
 
 
@@ -668,6 +692,9 @@ def _ord_cmp(m, c):
 
 def _ord_default(name):
     def f(m, c):
+        r = _peel_refs(m, c, "PartialOrd", name, parse_type("bool"))
+        if r is not NotImplemented:
+            return r
         a, b = c.args
         sa, sb = m.strip(a), m.strip(b)
         op = {"lt": "lt", "le": "le", "gt": "gt", "ge": "ge"}[name]
@@ -977,3 +1004,98 @@ def _cdf(m, c):
 def _inv_cdf(m, c):
     x = m.strip(c.args[1])
     return F(m.ufun("PhiInv", x.z()))
+
+
+# ------------------------------------------------------------------ more f64 methods
+def f_floor(m, x):
+    if not x.sym():
+        import math
+        return F(math.floor(x.v))
+    if x.d is not None:
+        x = F(m.quotient(x.num(), x.d))
+    t = m.fresh_int("floor")
+    tr = z3.ToReal(t)
+    m.define(z3.And(tr <= x.v, x.v < tr + 1))
+    return F(tr)
+
+
+@model("f64::floor")
+def _floor(m, c):
+    return f_floor(m, m.strip(c.args[0]))
+
+
+@model("f64::ceil")
+def _ceil(m, c):
+    return f_neg(f_floor(m, f_neg(m.strip(c.args[0]))))
+
+
+@model("f64::round")
+def _round(m, c):
+    x = m.strip(c.args[0])
+    # round half away from zero
+    pos = f_floor(m, f_bin(m, "add", x, F(Fraction(1, 2))))
+    neg = f_neg(f_floor(m, f_bin(m, "add", f_neg(x), F(Fraction(1, 2)))))
+    if m.decide(f_cmp("ge", x, F(0))):
+        return pos
+    return neg
+
+
+@model("f64::fract")
+def _fract(m, c):
+    x = m.strip(c.args[0])
+    return f_bin(m, "sub", x, f_trunc(m, x))
+
+
+@model("f64::recip")
+def _recip(m, c):
+    return f_bin(m, "div", F(1), m.strip(c.args[0]))
+
+
+@model("f64::max", "f64::min")
+def _fmaxmin(m, c):
+    a, b = m.strip(c.args[0]), m.strip(c.args[1])
+    g = m.decide(f_cmp("ge", a, b))
+    if c.cal.method == "max":
+        return a if g else b
+    return b if g else a
+
+
+@model("f64::mul_add")
+def _mul_add(m, c):
+    a, b, d = (m.strip(x) for x in c.args)
+    return f_bin(m, "add", f_bin(m, "mul", a, b), d)
+
+
+@model("f64::clamp")
+def _clamp(m, c):
+    x, lo, hi = (m.strip(v) for v in c.args)
+    if m.decide(f_cmp("lt", x, lo)):
+        return lo
+    if m.decide(f_cmp("gt", x, hi)):
+        return hi
+    return x
+
+
+@model("f64::copysign")
+def _copysign(m, c):
+    x, s = m.strip(c.args[0]), m.strip(c.args[1])
+    ax = f_abs(x)
+    return ax if m.decide(f_cmp("ge", s, F(0))) else f_neg(ax)
+
+
+@model("f64::exp_m1")
+def _exp_m1(m, c):
+    x = m.strip(c.args[0])
+    return F(m.ufun("exp", x.z()) - 1)
+
+
+@model("f64::ln_1p")
+def _ln_1p(m, c):
+    x = m.strip(c.args[0])
+    return F(m.ufun("ln", x.z() + 1))
+
+
+@model("f64::sin", "f64::cos", "f64::tan", "f64::tanh", "f64::sinh", "f64::cosh", "f64::atan", "f64::log10", "f64::log2", "f64::exp2", "f64::cbrt")
+def _uf1(m, c):
+    x = m.strip(c.args[0])
+    return F(m.ufun(c.cal.method, x.z()))
